@@ -32,6 +32,10 @@ REGISTRY = {
     "C03": ("gateway", "run_c03"),
     "C05": ("gateway", "run_c05"),
     "C09": ("flushrace", "run_c09"),
+    "C10": ("gateway", "run_c10"),
+    "C11": ("gateway", "run_c11"),
+    "C15": ("fileops", "run_c15"),
+    "C16": ("lifecycle", "run_c16"),
     "C17": ("stream", "run_c17"),
     "C18": ("mqtt", "run_c18"),
 }
